@@ -29,10 +29,15 @@
 // concretised by (seed, conc): all five field types, timestamps around 0 / models.MinNanoTime / models.MaxNanoTime,
 // escape-heavy series keys, one or two measurements, with or without a never-deleted anchor series.
 //
-// Known-finding predicate (F1): pattern delete_between_snapshot_begin_and_replace holds for a failing case iff the
-// divergence consists only of resurrected points and each of them is in (content of a snapshot of the behaviour) ∩
-// (key and range of a delete of the behaviour) where that delete was in flight at some moment between that snapshot's
-// SnapBegin and SnapReplace. Both sets are taken from the behaviour (hist records of the spec), not recomputed here.
+// Known-finding predicates (computed by knownPatterns from the behaviour's own records -- snapshot contents and delete
+// key/range are fields of the spec's hist records, nothing is recomputed here):
+//   - delete_between_snapshot_begin_and_replace (F1): the divergence consists only of extra (resurrected) points and each
+//     is in (content of a snapshot of the behaviour) ∩ (key and range of a delete of the behaviour) where that delete was
+//     in flight at some moment between that snapshot's SnapBegin and SnapReplace;
+//   - series_dropped_while_points_in_snapshot (F1b): a series reads empty and all the points it should have are in the
+//     content of such a snapshot (same window, delete of that series).
+//
+// Any divergence not fully explained by these stays a VIOLATION.
 //
 // The schedule hook is process-wide: run with -par 1 (the check shards over processes instead).
 package main
@@ -669,15 +674,37 @@ func (r *runner) acceptable(e *expT, key int, lo, hi int64, asc bool, got, want 
 	return true
 }
 
-// f1Pattern: see the file comment.
-func (r *runner) f1Pattern(e *expT) bool {
-	any := false
+// knownPatterns computes the known-finding predicates that hold for the divergence observed now (see the file comment).
+// Both take their inputs from the behaviour: snapshot contents and delete key/range are fields of the spec's records.
+//
+//	delete_between_snapshot_begin_and_replace   (F1)  every extra point is in snapshot content ∩ deleted range
+//	series_dropped_while_points_in_snapshot     (F1b) a whole series reads empty; every point it should have is in the
+//	                                                  content of a snapshot inside whose begin..replace window a delete of
+//	                                                  that series was in flight (the delete found the series neither in the
+//	                                                  hot store nor in a TSM file and dropped it from index and field set)
+//
+// Every differing key must be explained by one of them, otherwise no pattern is returned (=> VIOLATION).
+func (r *runner) knownPatterns(e *expT) []string {
+	overlapping := func(key int) (out [][2]int) { // (snapshot, delete) pairs: delete of `key` in flight inside begin..replace
+		for si, s := range r.snaps {
+			for di, d := range r.dels {
+				if int(d.k-1) == key && d.call < s.replace && d.ack > s.begin {
+					out = append(out, [2]int{si, di})
+				}
+			}
+		}
+		return
+	}
+	f1, f1b := false, false
 	for key, k := range r.cc.keys {
 		got, err := r.env.read(k, models.MinNanoTime, models.MaxNanoTime, true)
 		if err != nil {
-			return false
+			return nil
 		}
 		want := r.expected(e, key, models.MinNanoTime, models.MaxNanoTime, true)
+		if sameTV(got, want) {
+			continue
+		}
 		wm := map[int64]interface{}{}
 		for _, x := range want {
 			wm[x.T] = x.V
@@ -686,36 +713,57 @@ func (r *runner) f1Pattern(e *expT) bool {
 		for _, x := range got {
 			gm[x.T] = x.V
 		}
-		for t, v := range wm { // nothing may be missing or changed
+		inSnap := func(si int, t int64, v interface{}, lo, hi int64) bool {
+			for _, p := range r.snaps[si].content[key] {
+				if r.cc.times[p[0]-1] == t && concValue(k.typ, p[1]) == v && p[0] >= lo && p[0] <= hi {
+					return true
+				}
+			}
+			return false
+		}
+		pairs := overlapping(key)
+		if len(got) == 0 {
+			// F1b: the series vanished
+			for _, x := range want {
+				ok := false
+				for _, pr := range pairs {
+					ok = ok || inSnap(pr[0], x.T, x.V, 1, int64(len(r.cc.times)))
+				}
+				if !ok {
+					return nil
+				}
+			}
+			f1b = true
+			continue
+		}
+		for t, v := range wm { // F1: nothing may be missing or changed ...
 			if gv, ok := gm[t]; !ok || gv != v {
-				return false
+				return nil
 			}
 		}
-		for t, v := range gm {
+		for t, v := range gm { // ... and every extra point is in snapshot content ∩ deleted range
 			if _, ok := wm[t]; ok {
 				continue
 			}
-			// resurrected point (key, t, v): must be in snapshot ∩ delete range for an overlapping (snapshot, delete) pair
-			explained := false
-			for _, s := range r.snaps {
-				for _, d := range r.dels {
-					if int(d.k-1) != key || !(d.call < s.replace && d.ack > s.begin) {
-						continue
-					}
-					for _, p := range s.content[key] {
-						if r.cc.times[p[0]-1] == t && concValue(k.typ, p[1]) == v && p[0] >= d.lo && p[0] <= d.hi {
-							explained = true
-						}
-					}
-				}
+			ok := false
+			for _, pr := range pairs {
+				d := r.dels[pr[1]]
+				ok = ok || inSnap(pr[0], t, v, d.lo, d.hi)
 			}
-			if !explained {
-				return false
+			if !ok {
+				return nil
 			}
-			any = true
 		}
+		f1 = true
 	}
-	return any
+	var pats []string
+	if f1 {
+		pats = append(pats, "delete_between_snapshot_begin_and_replace")
+	}
+	if f1b {
+		pats = append(pats, "series_dropped_while_points_in_snapshot")
+	}
+	return pats
 }
 
 const inf = 1 << 30
@@ -747,10 +795,7 @@ func (r *runner) checkReads(i int, s *stepT) *rt.Result {
 				if r.acceptable(e, key, g.lo, g.hi, asc, got, want) {
 					continue
 				}
-				var pats []string
-				if r.f1Pattern(e) {
-					pats = append(pats, "delete_between_snapshot_begin_and_replace")
-				}
+				pats := r.knownPatterns(e)
 				res := rt.Fail(i, fmt.Sprintf("after step %d (%s): read key %d [%d,%d] asc=%v returned {%s}, the model has {%s}  [%s]",
 					i, s.A, key+1, g.lo, g.hi, asc, fmtTV(got), fmtTV(want), r.cc.describe()), fmtTV(got), fmtTV(want), pats...)
 				return &res
@@ -970,11 +1015,18 @@ func (r *runner) step(i int, s *stepT) *rt.Result {
 	return nil
 }
 
-// finishJobs lets every parked goroutine run to its end so that the shard can be closed.
-func (r *runner) finishJobs() {
-	for _, j := range []*job{r.comp, r.snap, r.write, r.del, r.comp} {
+// finishJobs lets every parked goroutine run to its end (compaction first: a delete may be waiting for it; then the
+// snapshot: it may hold Engine.mu, which the write's and the delete's return need). It reports whether any job was
+// still in flight.
+func (r *runner) finishJobs() (bool, error) {
+	inflight := false
+	var first error
+	for _, j := range []*job{r.comp, r.snap, r.write, r.del} {
 		if j != nil && !j.finished {
-			j.advance()
+			inflight = true
+			if err := j.advance(); err != nil && first == nil {
+				first = err
+			}
 		}
 	}
 	hookMu.Lock()
@@ -982,6 +1034,40 @@ func (r *runner) finishJobs() {
 		delete(jobs, k)
 	}
 	hookMu.Unlock()
+	return inflight, first
+}
+
+// finModel is TSMEngine.tla's FinModel of a step's observation: the model once the half-applied write / delete that
+// the spec reports (exp.w, exp.d) are acknowledged. The spec's action property FinStable says that nothing but issuing
+// a new write or delete changes it, so it is what reads must return after the in-flight jobs have run to their end.
+func finModel(e *expT) expT {
+	out := expT{M: make([][][2]int64, len(e.M))}
+	for k := range e.M {
+		m := map[int64]int64{}
+		for _, p := range e.M[k] {
+			m[p[0]] = p[1]
+		}
+		for _, w := range e.W {
+			if int(w[0]-1) == k {
+				m[w[1]] = w[2]
+			}
+		}
+		if len(e.D) == 3 && int(e.D[0]-1) == k {
+			for t := e.D[1]; t <= e.D[2]; t++ {
+				delete(m, t)
+			}
+		}
+		var ts []int64
+		for t := range m {
+			ts = append(ts, t)
+		}
+		sort.Slice(ts, func(i, j int) bool { return ts[i] < ts[j] })
+		out.M[k] = [][2]int64{}
+		for _, t := range ts {
+			out.M[k] = append(out.M[k], [2]int64{t, m[t]})
+		}
+	}
+	return out
 }
 
 func runCase(raw json.RawMessage, env *rt.Env) rt.Result {
@@ -1051,7 +1137,40 @@ func runCase(raw json.RawMessage, env *rt.Env) rt.Result {
 			return *res
 		}
 	}
-	r.finishJobs()
+	// epilogue: let the jobs that are still in flight run to their end, then restart; the reads must equal the spec's
+	// FinModel of the last state both times (every replayed history is also a durability test of its final state)
+	last := &c.Steps[len(c.Steps)-1]
+	fin := finModel(&last.Exp)
+	n := len(c.Steps)
+	for i := range r.dels {
+		if r.dels[i].ack == inf {
+			r.dels[i].ack = n
+		}
+	}
+	inflight, err := r.finishJobs()
+	if err != nil {
+		return rt.Result{OK: false, Kind: "hang", Step: n, Msg: "epilogue (finishing the jobs in flight): " + err.Error(), Evals: r.evals}
+	}
+	if inflight {
+		if res := r.checkReads(n, &stepT{A: "epilogue: jobs in flight run to their end", Exp: fin}); res != nil {
+			res.Evals = r.evals
+			return *res
+		}
+	}
+	if last.A != "Reopen" {
+		if err := r.env.close(); err != nil {
+			closed = true
+			return rt.Infra("close: " + err.Error())
+		}
+		if err := r.env.open(); err != nil {
+			closed = true
+			return rt.Fail(n+1, "epilogue: reopen failed: "+err.Error(), nil, nil)
+		}
+		if res := r.checkReads(n+1, &stepT{A: "epilogue: reopen", Exp: fin}); res != nil {
+			res.Evals = r.evals
+			return *res
+		}
+	}
 	closed = true
 	if err := r.env.close(); err != nil {
 		return rt.Infra("close: " + err.Error())
